@@ -87,6 +87,7 @@ class _Rec(Plugin):
     NAME = None       # display name (plugins of different modules may well share one)
     ATTRS = None      # resource attributes / decoration attributes
     FAIL_CTOR = False
+    DEREGISTER = False
 
     def __init__(self, config=None):
         if self.FAIL_CTOR:
@@ -101,6 +102,12 @@ class _Rec(Plugin):
 
     def shutdown(self):
         _rec(self.class_name, 'shutdown')
+        if self.DEREGISTER and self.config is not None:
+            # a plugin that takes itself off the agent's plugin list when it is told to stop
+            try:
+                self.config.plugins.remove(self)
+            except ValueError:
+                pass
 
 
 class _ResMixin(ResourceProvider):
@@ -164,12 +171,13 @@ class Utf8StreamLogger(TracepointLogger):
 _KINDS = {'res': _ResMixin, 'dec': _DecMixin, 'log': _LogMixin, 'met': _MetMixin, 'span': _SpanMixin}
 
 
-def make(name, kinds, order=0, attrs=None, fail_ctor=False, falsy=None, display_name=None):
+def make(name, kinds, order=0, attrs=None, fail_ctor=False, falsy=None, display_name=None, deregister=False):
     """Create (or replace) an importable plugin class vf.plugins.<name>.
 
     falsy: 'len' / 'bool' make the instances falsy (e.g. a registry-like plugin that is empty so far)."""
     bases = tuple([_Rec] + [_KINDS[k] for k in kinds])
-    ns = {'ORDER': order, 'ATTRS': attrs, 'FAIL_CTOR': fail_ctor, '__module__': __name__, 'NAME': display_name}
+    ns = {'ORDER': order, 'ATTRS': attrs, 'FAIL_CTOR': fail_ctor, '__module__': __name__, 'NAME': display_name,
+          'DEREGISTER': deregister}
     if falsy == 'len':
         ns['__len__'] = lambda self: 0
     elif falsy == 'bool':
